@@ -3,7 +3,7 @@
 
     A boolean predicate over the abstract triple and its layout, written over
     the Spec vocabulary only.  Every conjunct that excludes valid input
-    corresponds to a root cause recorded in known_findings.json (ids C06-F1 ... C06-F8). *)
+    corresponds to a root cause recorded in known_findings.json (ids C06-F1 ... C06-F8, C06-F7r). *)
 
 From Coq Require Import List Ascii String ZArith Bool.
 From Shexer Require Import Lib.PyStr Spec.NtSyntax.
@@ -121,4 +121,14 @@ Section RootCauses.
   Definition root_causes_fx2 : list bool := [false; false; false; false; false; false; rc_F7_fx; false].
 
   Definition C06_dom_fx2 : bool := forallb negb root_causes_fx2.
+
 End RootCauses.
+
+(** ** after the repair comment-glued-to-dot as well ([hs]: a token also ends at '#'): nothing is
+    left; [hs = false] is the reader without that repair ([root_causes_fx2]) *)
+Definition rc_F7_fx3 (hs : bool) (t : striple) (l : layout) : bool := negb hs && rc_F7_fx t l.
+
+Definition root_causes_fx3 (hs : bool) (t : striple) (l : layout) : list bool :=
+  [false; false; false; false; false; false; rc_F7_fx3 hs t l; false].
+
+Definition C06_dom_fx3 (hs : bool) (t : striple) (l : layout) : bool := forallb negb (root_causes_fx3 hs t l).
